@@ -1,6 +1,10 @@
 """C03, projective classes: spec/proj/ProjAction.tla cases replayed with projective.Transformation on
 projective.Point / PointPair / Polygon / Simplex / Subspace / Transformation (real 3x3, inverse =
-adjugate projectively) and on complex points of CP^1 (Gaussian-integer 2x2)."""
+adjugate projectively) and on complex points, pairs, polygons and transformations of CP^1 / CP^2
+(Gaussian-integer 2x2 and 3x3).  A transformation is a projective class: every case is run with the
+matrix the spec wrote down and with the unitary / orthogonal representative A / sqrt(k) of the class
+when the spec says there is one (Scales(A)), and with integer storage of the real matrices."""
+import itertools
 import json
 
 import numpy as np
@@ -9,6 +13,7 @@ from .. import core
 from .. import hyp_common as hc
 
 TOL = 1e-9
+CCLS = ("cpoint", "cpair", "cpolygon", "ctransformation")
 
 
 def cproj_close(a, b, tol=TOL):
@@ -16,8 +21,11 @@ def cproj_close(a, b, tol=TOL):
     b = np.asarray(b, complex).ravel()
     if a.shape != b.shape or not np.isfinite(a).all():
         return False
-    a = a / np.linalg.norm(a)
-    b = b / np.linalg.norm(b)
+    na, nb = np.linalg.norm(a), np.linalg.norm(b)
+    if na == 0 or nb == 0:
+        return False
+    a = a / na
+    b = b / nb
     ph = np.vdot(b, a)
     if abs(ph) == 0:
         return False
@@ -28,14 +36,27 @@ def G(z):
     return complex(z[0], z[1])
 
 
-def build(o):
+def cmat(M):
+    return np.array([[G(z) for z in row] for row in M], dtype=complex)
+
+
+def crow(rows):
+    return np.array([[G(z) for z in v] for v in rows], dtype=complex)
+
+
+def build(o, dtype=float):
     from geometry_tools import projective as P
     cls = o["cls"]
-    if cls == "cpoint":
-        return P.Point(np.array([G(z) for z in o["v"]], dtype=complex))
+    if cls in CCLS:
+        if cls == "ctransformation":
+            return P.Transformation(cmat(o["h"]), column_vectors=True)
+        rows = crow(o["rows"])
+        if cls == "cpoint":
+            return P.Point(rows[0])
+        return {"cpair": P.PointPair, "cpolygon": P.Polygon}[cls](rows)
     if cls == "transformation":
-        return P.Transformation(np.array(o["h"], float), column_vectors=True)
-    rows = np.array(o["rows"], float)
+        return P.Transformation(np.array(o["h"], dtype), column_vectors=True)
+    rows = np.array(o["rows"], dtype)
     if cls == "point":
         return P.Point(rows[0])
     return {"pair": P.PointPair, "polygon": P.Polygon, "simplex": P.Simplex, "subspace": P.Subspace}[cls](rows)
@@ -48,10 +69,30 @@ def same(lib, spec, typ, shape):
         return ("shape", "%r vs %r" % (lib.shape, shape))
     cls = spec["cls"]
     pd = np.asarray(lib.proj_data)
-    if cls == "cpoint":
-        want = np.array([G(z) for z in spec["v"]])
-        return None if cproj_close(pd, want) else ("cpoint", "%r vs %r" % (pd.tolist(), want.tolist()))
-    pd = pd.astype(float)
+    if cls in CCLS:
+        if cls == "ctransformation":
+            want = cmat(spec["h"])
+            return None if cproj_close(np.swapaxes(pd, -1, -2), want) else ("cmatrix", "%r vs %r" % (pd.T.tolist(), want.tolist()))
+        want = crow(spec["rows"])
+        if cls == "cpoint":
+            return None if cproj_close(pd, want[0]) else ("cpoint", "%r vs %r" % (pd.tolist(), want[0].tolist()))
+        if pd.shape != want.shape:
+            return ("rows.shape", "%r" % (pd.shape,))
+        for i in range(len(want)):
+            if not cproj_close(pd[i], want[i]):
+                return ("crow[%d]" % i, "%r vs %r" % (pd[i].tolist(), want[i].tolist()))
+        if cls == "cpolygon":
+            aux = np.asarray(lib.aux_data)
+            k = len(want)
+            if aux.shape != (k, 2, want.shape[-1]):
+                return ("cpolygon.edges.shape", "%r" % (aux.shape,))
+            for i in range(k):
+                if not (cproj_close(aux[i, 0], want[i]) and cproj_close(aux[i, 1], want[(i + 1) % k])):
+                    return ("cpolygon.edge[%d]" % i, "%r" % (aux[i].tolist(),))
+        return None
+    if np.iscomplexobj(pd) and np.abs(pd.imag).max() > 0:
+        return ("real_data_became_complex", "%r" % (pd.tolist(),))
+    pd = pd.real.astype(float)
     if cls == "transformation":
         return None if hc.mat_proj_close(pd.T, np.array(spec["h"], float), TOL) else ("matrix", "%r vs %r" % (pd.T.tolist(), spec["h"]))
     rows = np.array(spec["rows"], float)
@@ -79,38 +120,121 @@ def same(lib, spec, typ, shape):
     return None
 
 
-def run(run):
+def reps(M, scales, cplx):
+    """the representatives of the projective class of M that the replay hands to the library:
+    (label, matrix) - the spec's matrix, the unitary / orthogonal one where the spec names a scale, and for real
+    integer matrices the integer-typed array"""
+    base = cmat(M) if cplx else np.array(M, float)
+    out = [("as_written", base)]
+    for k in sorted(scales):
+        if k != 1:
+            out.append(("over_sqrt_%d" % k, base / np.sqrt(float(k))))
+    if not cplx:
+        out.append(("int64", np.array(M, dtype=np.int64)))
+    return out
+
+
+def five(A, Bt, ident, X, e, o):
+    return (("(A@B)@X", lambda: (A @ Bt) @ X, e["img"]), ("A@(B@X)", lambda: A @ (Bt @ X), e["img"]), ("A@X", lambda: A @ X, e["imgA"]),
+            ("I@X", lambda: ident @ X, o), ("A.inv()@(A@X)", lambda: A.inv() @ (A @ X), o))
+
+
+def replay_cases(run, emits):
     from geometry_tools import projective as P
-    c = core.cfg(invariants=["Invertible", "ActionLaw", "IdentityLaw", "InverseActs", "AdjugateIsInverse", "EmitCase"])
-    r = run.tlc("proj/ProjAction.tla", c, name="ProjAction", workers=4, emit_prefix="CASE ")
-    for e in r.emits:
+    for e in emits:
         o = e["obj"]
-        cplx = o["cls"] == "cpoint"
+        cplx = o["cls"] in CCLS
+        n = len(e["A"])
         run.case(key=None, action="proj_act:" + o["cls"])
+        bad = None
         try:
-            if cplx:
-                A = P.Transformation(np.array([[G(z) for z in row] for row in e["A"]]), column_vectors=True)
-                Bt = P.Transformation(np.array([[G(z) for z in row] for row in e["B"]]), column_vectors=True)
-                ident = P.identity(1, dtype=complex) if False else P.Transformation(np.eye(2, dtype=complex))
-            else:
-                A = P.Transformation(np.array(e["A"], float), column_vectors=True)
-                Bt = P.Transformation(np.array(e["B"], float), column_vectors=True)
-                ident = P.identity(2)
-            X = build(o)
-            typ, shape = type(X), X.shape
-            bad = None
-            for name, lib, spec in (("(A@B)@X", (A @ Bt) @ X, e["img"]), ("A@(B@X)", A @ (Bt @ X), e["img"]), ("A@X", A @ X, e["imgA"]),
-                                    ("I@X", ident @ X, o), ("A.inv()@(A@X)", A.inv() @ (A @ X), o)):
-                bad = same(lib, spec, typ, shape)
+            ident = P.Transformation(np.eye(n, dtype=complex)) if cplx else P.identity(n - 1)
+            Areps, Breps = reps(e["A"], e["sA"], cplx), reps(e["B"], e["sB"], cplx)
+            # every representative of A with B as written, and A as written with every representative of B
+            combos = [(ra, Breps[0]) for ra in Areps] + [(Areps[0], rb) for rb in Breps[1:]]
+            if not cplx:
+                combos.append((Areps[-1], Breps[-1]))          # everything stored as integers
+            for (la, Am), (lb, Bm) in combos:
+                A = P.Transformation(Am.copy(), column_vectors=True)
+                Bt = P.Transformation(Bm.copy(), column_vectors=True)
+                X = build(o, dtype=np.int64 if (la == "int64" and lb == "int64") else float)
+                typ, shape = type(X), X.shape
+                for name, f, spec in five(A, Bt, ident, X, e, o):
+                    bad = same(f(), spec, typ, shape)
+                    if bad:
+                        bad = ("%s[A %s, B %s]:%s" % (name, la, lb, bad[0]), bad[1])
+                        break
                 if bad:
-                    bad = (name + ":" + bad[0], bad[1])
                     break
         except Exception as ex:
             bad = ("raised", "%s: %s" % (type(ex).__name__, ex))
         if bad:
             run.violation("proj_act:%s" % json.dumps([o, e["A"], e["B"]])[:300], bad[0], dict(obj=o, A=e["A"], B=e["B"], observed=bad[1]))
-    run.traces += len(r.emits)
-    run.nontrivial_count += len(r.emits)
+    run.traces += len(emits)
+    run.nontrivial_count += len(emits)
+
+
+def replay_stacks(run, emits):
+    """composite transformations: T = stack of (representatives of) transformations of one dimension, applied
+    elementwise to a stack of copies of X; unit i of T @ X is the image under T[i] and T.inv() @ (T @ X) is X, unit by
+    unit.  Stacks: every matrix of the universe; only those with a unitary / orthogonal representative (normalised)."""
+    from geometry_tools import projective as P
+    groups = {}
+    for e in emits:
+        o = e["obj"]
+        groups.setdefault(json.dumps(o, sort_keys=True), {}).setdefault(json.dumps(e["A"]), e)
+    for oj, d in sorted(groups.items()):
+        es = [d[k] for k in sorted(d)]
+        o = es[0]["obj"]
+        cplx = o["cls"] in CCLS
+        special = [e for e in es if e["sA"]]
+        for label, sel, norm in (("all", es, False), ("special_normalised", special, True), ("special_as_written", special, False)):
+            if len(sel) < 2:
+                continue
+            run.case(key=None, action="proj_stack:" + o["cls"])
+            bad = None
+            try:
+                mats = []
+                for e in sel:
+                    M = cmat(e["A"]) if cplx else np.array(e["A"], float)
+                    if norm:
+                        M = M / np.sqrt(float(max(e["sA"])))
+                    mats.append(M)
+                T = P.Transformation(np.array(mats), column_vectors=True)
+                unit = build(o)
+                X = type(unit)([build(o) for _ in sel])
+                R = T @ X
+                back = T.inv() @ R
+                if type(R) is not type(X) or tuple(R.shape) != (len(sel),):
+                    bad = ("stack.type_shape", "%s %r" % (type(R).__name__, R.shape))
+                for i, e in enumerate(sel):
+                    if bad:
+                        break
+                    bad = same(R[i], e["imgA"], type(unit), ())
+                    if bad:
+                        bad = ("stack[%d]:T@X:%s" % (i, bad[0]), bad[1])
+                        break
+                    bad = same(back[i], o, type(unit), ())
+                    if bad:
+                        bad = ("stack[%d]:T.inv()@(T@X):%s" % (i, bad[0]), bad[1])
+            except Exception as ex:
+                bad = ("raised:stack", "%s: %s" % (type(ex).__name__, ex))
+            if bad:
+                run.violation("proj_stack:%s:%s" % (label, oj[:200]), bad[0], dict(obj=o, stack=label, A=[e["A"] for e in sel], observed=bad[1]))
+
+
+def tlc_job():
+    c = core.cfg(invariants=["Invertible", "ActionLaw", "IdentityLaw", "InverseActs", "AdjugateIsInverse", "SpecialInverses",
+                             "UniverseRich", "EmitCase"])
+    return dict(module="proj/ProjAction.tla", cfg=c, name="ProjAction", emit_prefix="CASE ")
+
+
+def replay(run, r):
+    replay_cases(run, r.emits)
+    replay_stacks(run, r.emits)
+    seen = set()
     for e in r.emits:
-        if e["obj"]["cls"] in ("polygon", "cpoint") and e["A"] != e["B"]:
-            run.sample(dict(kind="projective action case (%s)" % e["obj"]["cls"], **e))
+        if e["obj"]["cls"] in ("polygon", "cpolygon", "cpoint") and e["A"] != e["B"] and (e["sA"] or e["obj"]["cls"] == "polygon"):
+            if (e["obj"]["cls"], len(e["A"])) not in seen:
+                seen.add((e["obj"]["cls"], len(e["A"])))
+                run.sample(dict(kind="projective action case (%s, %dx%d)" % (e["obj"]["cls"], len(e["A"]), len(e["A"])), **e))
